@@ -3,6 +3,7 @@ package checks
 import (
 	"fmt"
 	"github.com/uhn/ggql/pkg/ggql"
+	"io"
 	"math/rand"
 
 	"verif/internal/back"
@@ -195,8 +196,85 @@ func runC01(c *run.Ctx) {
 			}
 		}
 	}
+	c01ReaderFaults(c, c.N(800, 12000))
 	// requests answered, the hierarchy extended by later loads (no new type), the request judged over the final schema
 	stagedHierarchy(c, "c01", c.N(120, 2000))
 	c01Unbound(c, c.N(150, 4000))
 	petsRequests(c, "c01", c.N(200, 4000))
+}
+
+type c01CutReader struct {
+	text string
+	at   int
+	err  error
+	pos  int
+}
+
+func (r *c01CutReader) Read(p []byte) (int, error) {
+	if r.pos >= r.at {
+		return 0, r.err
+	}
+	n := copy(p, r.text[r.pos:r.at])
+	r.pos += n
+	return n, nil
+}
+
+// c01ReaderFaults: a request body that breaks off. The reader hands over a prefix of a document with several operations
+// - cut right after a complete top-level definition, where the prefix is a well-formed document of its own - and then
+// fails (io.ErrUnexpectedEOF, a closed pipe, an error of the application's own). The request was not received: it is
+// answered with an error and no resolver runs, whatever the prefix would have meant.
+func c01ReaderFaults(c *run.Ctx, n int) {
+	for i := 0; i < n && !c.TooMany(); i++ {
+		r := c.Rand(5000000 + i)
+		kind := []string{"iface", "any", "reflect"}[i%3]
+		refl := kind == "reflect"
+		ec := newExecCaseG(r, gen.SchemaOpts{Args: !refl, Mutation: true}, gen.DocOpts{Frags: i%2 == 0, Aliases: true, Mutation: true, Depth: 2, MaxOps: 3}, gen.GraphOpts{})
+		if len(ec.DC.Doc.Ops) < 2 || (refl && !back.ReflectFriendly(ec.S)) {
+			continue
+		}
+		h, err := back.Build(kind, ec.S, ec.SDL, ec.G)
+		if err != nil {
+			continue
+		}
+		// cut points: after a closing brace at nesting depth zero (strings and comments do not occur at the top level of
+		// the generated documents' brace structure in a way that matters: a wrong cut only makes the prefix malformed)
+		var cuts []int
+		depth := 0
+		for k, ch := range ec.Text {
+			switch ch {
+			case '{':
+				depth++
+			case '}':
+				depth--
+				if depth == 0 && k+1 < len(ec.Text) {
+					cuts = append(cuts, k+1)
+				}
+			}
+		}
+		if len(cuts) == 0 {
+			continue
+		}
+		at := cuts[r.Intn(len(cuts))]
+		ferr := []error{io.ErrUnexpectedEOF, io.ErrClosedPipe, fmt.Errorf("connection reset by peer"), io.ErrNoProgress}[r.Intn(4)]
+		h.Reset(nil)
+		var res map[string]interface{}
+		pv, _ := run.Protect(func() {
+			res = h.Root.ResolveReader(&c01CutReader{text: ec.Text, at: at, err: ferr}, "", copyVars(ec.DC.Vars))
+		})
+		calls := len(h.Calls)
+		c.Eval(fmt.Sprintf("reader-fault|%s|%d|%v|%s", ec.Text, at, ferr, kind), true)
+		c.Bucket("doc_features", "request-body-breaks-off-after-a-complete-definition")
+		diag := ""
+		switch {
+		case pv != nil:
+			diag = fmt.Sprint("panic: ", pv)
+		case res == nil || res["errors"] == nil:
+			diag = "the reader failed and the response reports no error"
+		case calls > 0:
+			diag = fmt.Sprintf("the reader failed and %d resolver(s) ran all the same", calls)
+		}
+		if diag != "" {
+			c.Violation("c01-reader-fault", ec.replay(kind, "", map[string]interface{}{"received_prefix": ec.Text[:at], "reader_error": ferr.Error(), "diff": diag, "response": fmt.Sprint(res)}))
+		}
+	}
 }
